@@ -435,13 +435,21 @@ func (f *frame) load(n *node, p Val, t types.Type, pos token.Pos, what string) V
 	}
 	h := f.heapFor(n, p)
 	r := Val{T: t, Old: p.Old}
+	// in specification code a field read through a nil pointer yields the zero value (so
+	// that `modifies` and clauses may name the fields of an object that is only
+	// sometimes there, e.g. the reader behind an interface after a type assertion)
+	specNil := (f.spec || x.inSpec()) && p.Idx == "" && isNil(p.C[0])
 	for _, c := range x.comps(t) {
 		if p.Idx != "" {
 			arr := x.hget(h, key+c.suffix+"[]", c.sort, SortBV64)
 			r.C = append(r.C, g.Fresh(c.sort, "(select (select "+arr+" "+p.C[0]+") "+p.Idx+")"))
 		} else {
 			arr := x.hget(h, key+c.suffix, c.sort, "")
-			r.C = append(r.C, g.Fresh(c.sort, "(select "+arr+" "+p.C[0]+")"))
+			if specNil {
+				r.C = append(r.C, zeroOfSort(x, c.sort))
+			} else {
+				r.C = append(r.C, g.Fresh(c.sort, "(select "+arr+" "+p.C[0]+")"))
+			}
 		}
 	}
 	if !x.g.InQuant() {
@@ -693,7 +701,16 @@ func (x *Exec) binopVals(f *frame, n *node, op token.Token, a, b Val, xt, yt, rt
 				e = eq(a.C[0], b.C[0])
 				if a.Idx != "" || b.Idx != "" {
 					if a.Idx == "" || b.Idx == "" {
-						unsup("comparison of element pointer with object pointer")
+						// an element pointer is never nil and differs from every object pointer
+						if isNilConst(a) || isNilConst(b) {
+							e = "false"
+							break
+						}
+						fnName := ""
+						if f != nil {
+							fnName = f.fn.Name()
+						}
+						unsup("comparison of element pointer with object pointer in %s", fnName)
 					}
 					e = and(e, eq(a.Idx, b.Idx))
 				}
